@@ -24,6 +24,8 @@ def gen_scenario(seed, i):
             f["verbose"] = rng.randint(1, 2)
         if rng.random() < 0.15:
             f["compile_commands"] = True
+        if rng.random() < 0.12:
+            f["info_export"] = ".info-export.json"       # also disables the cache for this run
         return f
 
     def narrow():
